@@ -5,7 +5,7 @@ import numpy as np
 import torch as tn
 import torchtt
 
-DTYPES = {"f64": tn.float64, "f32": tn.float32, "c128": tn.complex128}
+DTYPES = {"f64": tn.float64, "f32": tn.float32, "c128": tn.complex128, "c64": tn.complex64}
 
 
 def int_tensor(rng, shape, dtype, lo=-2, hi=2, nz=False):
@@ -14,9 +14,9 @@ def int_tensor(rng, shape, dtype, lo=-2, hi=2, nz=False):
     if nz:
         vals = [v if v != 0 else 1 for v in vals]
     t = tn.tensor(vals, dtype=tn.float64).reshape(shape)
-    if dtype == tn.complex128:
+    if dtype in (tn.complex128, tn.complex64):
         im = tn.tensor([rng.randint(lo, hi) for _ in range(n)], dtype=tn.float64).reshape(shape)
-        return tn.complex(t, im)
+        return tn.complex(t, im).to(dtype)
     return t.to(dtype)
 
 
